@@ -2,21 +2,25 @@
 
 Everything h3 reads passes through h3/src/buf.rs: BufList (one entry per transport chunk) and the Cursor the frame decoder
 reads through. Analysed (MIR): BufList::{remaining, chunk, advance, take_chunk, take_first_chunk, push_bytes, cursor},
-Cursor::{remaining, chunk, advance, position}. The stream is a string of N bytes; EVERY way of cutting N <= 5 (quick) / 6
-(thorough) bytes into non-empty chunks is explored (2^(N-1) partitions per N). Contracts: VecDeque as an explicit list,
-Bytes as a window [start, start+len) over the stream with remaining / chunk / advance / split_to by their `bytes`
-semantics. Decided for every partition:
-  * remaining() is the number of bytes left, chunk() is the bytes from the current position to the end of the first entry
-    (non-empty while bytes remain);
-  * advance(n), every n <= remaining: afterwards the list denotes exactly the suffix from byte n (no byte lost, none kept
-    twice), no empty entry is left at the front;
-  * take_chunk(max), every max >= 1: returns the bytes [0, min(max, first entry)) in order, the list then denotes the rest;
-    repeated until empty it hands out every byte exactly once, in order; take_first_chunk likewise;
-  * the cursor: after advance(m), every m <= remaining (in one step or in two steps m1 + m2): position() = m, remaining()
-    = N - m, chunk() starts at byte m and is non-empty while m < N; the list itself is untouched - so 'decode through the
-    cursor, then advance the list by cursor.position()' consumes exactly the decoded bytes whatever the chunking.
+Cursor::{remaining, chunk, advance, position}. Contracts: VecDeque as an explicit list, Bytes as a window [start, start+len)
+over the stream with remaining / chunk / advance / split_to by their `bytes` semantics (a request past the window panics).
+Deciding run (z3): lists of 0..3 (quick) / 0..4 (thorough) entries whose LENGTHS are solver variables (any length from 1 to
+2^12 - 1 each, first entry possibly partly consumed) and SYMBOLIC amounts:
+  * remaining() is the sum of the lengths, chunk() is the rest of the first entry;
+  * advance(n), any n <= remaining: afterwards the list denotes exactly the suffix from byte n - windows contiguous, none
+    empty, ending where the list ended (no byte lost, none kept twice);
+  * take_chunk(limit), any limit >= 1, ONE step from an arbitrary valid list: returns exactly the first min(limit, first
+    entry) bytes and keeps exactly the rest - by induction over the calls every payload byte is handed out exactly once, in
+    order, whatever the limits;
+  * the cursor, ONE advance(c) from an arbitrary valid cursor position (any entry, any offset inside it), any c <= what is
+    left: the cursor is at position + c, inside its entry (or at the end), chunk() there starts at exactly that byte and is
+    not empty while bytes are left, the list is untouched - by induction 'decode through the cursor, then advance the list
+    by cursor.position()' consumes exactly the decoded bytes whatever the chunking.
+Second, independent run of the same MIR under concrete contracts: EVERY way of cutting 0..5 / 0..6 bytes into chunks, with
+take_chunk repeated until empty, two-step cursor reads, take_first_chunk and push_bytes.
 """
 import itertools
+import re
 import time
 import z3
 
@@ -416,3 +420,379 @@ SCENARIOS = [("c02_chunking_independence", []), ("c02_decoder_memo", []), ("c19_
 
 def replay_args(v):
     return ("c02_chunking_independence", [])
+
+
+# ================================================================================================
+# symbolic version: chunk LENGTHS are solver variables (any length below 2^32), amounts are solver variables
+
+# entry lengths and the first position are symbolic below 2^LEN_BITS. The code only ever COMPARES lengths and amounts (no
+# constant thresholds), and the queries are chains of 64-bit subtractions and comparisons: with 32 free bits per variable the
+# SAT back end needs minutes per query, with 12 it answers at once.
+LEN_BITS = 12
+
+
+def sym_contracts():
+    def op(fn):
+        def f(ex, st, key, argv, dest_ty, raw):
+            return fn(ex, st, key, argv, dest_ty)
+        return f
+
+    def one(fn):
+        def f(ex, st, key, argv, dest_ty, raw):
+            return [Case(None, lambda ex, st, a: fn(ex, st, a, dest_ty))]
+        return f
+
+    def dq(a0):
+        return C.deref(a0).attrs.setdefault("items", [])
+
+    def W(o):
+        return win(o)
+
+    def d_push_back(ex, st, a, dt):
+        dq(a[0]).append(Cell(a[1]))
+        return UNIT
+
+    def d_front(ex, st, a, dt):
+        items = dq(a[0])
+        return ex.make_enum(dt, "Some", [Ref(items[0])]) if items else ex.make_enum(dt, "None")
+
+    def d_pop_front(ex, st, a, dt):
+        items = dq(a[0])
+        if not items:
+            return ex.make_enum(dt, "None")
+        return ex.make_enum(dt, "Some", [items.pop(0).v])
+
+    def d_index(ex, st, a, dt):
+        items = dq(a[0])
+        i = ival(a[1])          # indices are concrete: they only ever count entries
+        if i >= len(items):
+            return panic(st, "VecDeque index out of bounds")
+        return Ref(items[i])
+
+    def d_iter(ex, st, a, dt):
+        o = Obj(dt or "vec_deque::Iter")
+        o.attrs["over"] = dq(a[0])
+        return o
+
+    def d_map(ex, st, a, dt):
+        o = Obj(dt or "Map")
+        o.attrs["over"] = C.deref(a[0]).attrs.get("over", [])
+        return o
+
+    def d_sum(ex, st, a, dt):
+        tot = bv(0)
+        for c in C.deref(a[0]).attrs.get("over", []):
+            tot = tot + W(c.v)[1]
+        return tot
+
+    def b_remaining(ex, st, a, dt):
+        return W(a[0])[1]
+
+    def b_has_remaining(ex, st, a, dt):
+        return W(a[0])[1] != 0
+
+    def b_chunk(ex, st, a, dt):
+        s_, l_ = W(a[0])
+        sl = Obj("[u8]")
+        ex.field(sl, "meta", 0, "usize").v = l_
+        sl.attrs["from"] = s_
+        sl.attrs["len"] = l_
+        return Ref(Cell(sl))
+
+    def consume(kind):
+        # advance / split_to / copy_to_bytes(n): within the window, or a panic of the bytes crate
+        def f(ex, st, key, argv, dest_ty):
+            w0 = W(argv[0])
+            n0 = argv[1]
+
+            def ok(ex, st, a):
+                w = W(a[0])
+                n = a[1]
+                out = mk_bytes(w[0], n) if kind != "advance" else UNIT
+                w[0] = w[0] + n
+                w[1] = w[1] - n
+                return out
+            return [Case(z3.ULE(n0, w0[1]), ok), Case(z3.UGT(n0, w0[1]), lambda ex, st, a: panic(st, "bytes: " + kind + " past the end"))]
+        return f
+
+    def s_index_from(ex, st, key, argv, dest_ty):
+        sl0 = C.deref(argv[0])
+        r0 = C.deref(argv[1])
+        start0 = E.get_field(r0, (None, 0)) if isinstance(r0, Obj) else r0
+
+        def ok(ex, st, a):
+            sl = C.deref(a[0])
+            r = C.deref(a[1])
+            start = E.get_field(r, (None, 0)) if isinstance(r, Obj) else r
+            out = Obj("[u8]")
+            ex.field(out, "meta", 0, "usize").v = sl.attrs["len"] - start
+            out.attrs["from"] = sl.attrs["from"] + start
+            out.attrs["len"] = sl.attrs["len"] - start
+            return Ref(Cell(out))
+        return [Case(z3.ULE(start0, sl0.attrs["len"]), ok), Case(z3.UGT(start0, sl0.attrs["len"]), lambda ex, st, a: panic(st, "slice index starts past the end"))]
+
+    def o_unwrap_or_default(ex, st, a, dt):
+        o = a[0]
+        if z3.is_bv_value(o.discr) and o.discr.as_long() == 1:
+            return E.get_field(o, ("Some", 0))
+        sl = Obj("[u8]")
+        ex.field(sl, "meta", 0, "usize").v = bv(0)
+        sl.attrs["from"] = bv(0)
+        sl.attrs["len"] = bv(0)
+        return Ref(Cell(sl))
+    return [
+        (r"^VecDeque::push_back$", one(d_push_back)), (r"^VecDeque::front$|^VecDeque::front_mut$", one(d_front)),
+        (r"^VecDeque::pop_front$", one(d_pop_front)), (r"^VecDeque as Index(Mut)?::index(_mut)?$", one(d_index)),
+        (r"^VecDeque::iter$", one(d_iter)), (r"Iter as Iterator::map$", one(d_map)), (r"Map as Iterator::sum$", one(d_sum)),
+        (r"^(&mut )?(bytes::Bytes|T|B|&mut T) as Buf::remaining$|^Bytes as Buf::remaining$", one(b_remaining)),
+        (r"^(&mut )?(bytes::Bytes|T|B|&mut T) as Buf::has_remaining$", one(b_has_remaining)),
+        (r"^(bytes::Bytes|T|B) as Buf::chunk$|^Bytes as Buf::chunk$", one(b_chunk)),
+        (r"^(bytes::Bytes|T|B) as Buf::advance$|^Bytes as Buf::advance$", op(consume("advance"))),
+        (r"^bytes::Bytes::split_to$|^Bytes::split_to$", op(consume("split_to"))), (r"^T as Buf::copy_to_bytes$", op(consume("copy_to_bytes"))),
+        (r"^\[u8\] as Index::index$", op(s_index_from)),
+        (r"^Option::unwrap_or_default$", one(o_unwrap_or_default)),
+        (r"^usize as Ord::min$", lambda ex, st, key, argv, dest_ty, raw: [Case(None, lambda ex, st, a: z3.If(z3.ULE(a[0], a[1]), a[0], a[1]))]),
+    ] + c08.base_contracts()
+
+
+def sym_list(ex, st, k, tagp, first_start=None):
+    """k entries with symbolic lengths (1 <= L < 2^LEN_BITS) laid out contiguously from a symbolic first position"""
+    bl = Obj("buf::BufList<bytes::Bytes>")
+    dqo = Obj("std::collections::VecDeque<bytes::Bytes>")
+    items, lens = [], []
+    pos = first_start if first_start is not None else bv(0)
+    start0 = pos
+    for i in range(k):
+        L_ = z3.BitVec(f"{tagp}_len{i}", 64)
+        st.pc.append(z3.And(z3.Extract(63, LEN_BITS, L_) == 0, L_ != 0))
+        items.append(Cell(mk_bytes(pos, L_)))
+        lens.append(L_)
+        pos = pos + L_
+    dqo.attrs["items"] = items
+    bl.fields[(None, 0)] = Cell(dqo)
+    return bl, lens, start0, pos
+
+
+def denotes_suffix(bl, frm, end):
+    """z3 condition: the list's windows are contiguous from `frm` to `end`, none empty"""
+    items = bl.fields[(None, 0)].v.attrs["items"]
+    conds = []
+    pos = frm
+    for c in items:
+        s_, l_ = win(c.v)
+        conds.append(s_ == pos)
+        conds.append(l_ != 0)
+        pos = pos + l_
+    conds.append(pos == end)
+    return z3.And(conds) if conds else z3.BoolVal(True)
+
+
+def run_all(ex, st, pat, args):
+    E.call(ex, st, pat, args)
+    outs = E.collect(ex, st)
+    if ex.unroll_exceeded:
+        raise Inconclusive("loop bound exceeded: " + repr(ex.unroll_exceeded[:3]))
+    return outs
+
+
+def check_symbolic(L, tier, log, samples):
+    kmax = 3 if tier == "quick" else 4
+    inline = [(r"^BufList as Buf::remaining$", r"^buf::<impl[^>]*>::remaining$ @@ ^&BufList"),
+              (r"^BufList as Buf::chunk$", r"^buf::<impl[^>]*>::chunk$ @@ ^&BufList"),
+              (r"^BufList as Buf::advance$", r"^buf::<impl[^>]*>::advance$ @@ ^&mut BufList")]
+    ex = E.make_executor(L, inline, sym_contracts(), max_unroll=kmax + 3, max_paths=100000)
+    P = {"rem": r"^buf::<impl[^>]*>::remaining$ @@ ^&BufList", "chunk": r"^buf::<impl[^>]*>::chunk$ @@ ^&BufList",
+         "adv": r"^buf::<impl[^>]*>::advance$ @@ ^&mut BufList", "take": r"^buf::<impl[^>]*>::take_chunk$",
+         "crem": r"^buf::<impl[^>]*>::remaining$ @@ Cursor", "cchunk": r"^buf::<impl[^>]*>::chunk$ @@ Cursor",
+         "cadv": r"^buf::<impl[^>]*>::advance$ @@ ^&mut buf::Cursor"}
+    viols = []
+    wit = {"advance_stops_inside_an_entry": False, "advance_crosses_entries": False, "advance_consumes_everything": False,
+           "take_chunk_splits_an_entry": False, "take_chunk_takes_a_whole_entry": False,
+           "cursor_stops_inside_an_entry": False, "cursor_crosses_entries": False, "cursor_reaches_the_end": False}
+    paths = 0
+    q = 0
+
+    def bad(key, what, s, extra, **m):
+        mdl = ex.model(s, extra)
+        vals = {}
+        if mdl is not None:
+            for d in mdl.decls():
+                if d.name().startswith(("l_", "c_", "t_", "n_", "amount", "limit", "pos_front")):
+                    vals[d.name()] = mdl[d].as_long()
+        viols.append({"key": key, "what": what, "model": dict(values=vals, **m)})
+
+    for k in range(0, kmax + 1):
+        # ---------------- advance(n), n <= remaining, from a list whose first entry may be partly consumed
+        st = State()
+        start = z3.BitVec("l_first_pos", 64)
+        st.pc.append(z3.Extract(63, LEN_BITS, start) == 0)
+        bl, lens, s0, end = sym_list(ex, st, k, "l", start)
+        n = z3.BitVec("amount", 64)
+        st.pc.append(z3.And(z3.ULE(n, end - s0), z3.Extract(63, LEN_BITS + 3, n) == 0))
+        st.world["box"] = {"bl": Cell(bl)}
+        for s, r in run_all(ex, st, P["adv"], [Ref(st.world["box"]["bl"]), n]):
+            paths += 1
+            if is_panic(r):
+                bad("c02.bytes.advance_panics", "BufList::advance panics for an amount within what is buffered", s, z3.BoolVal(True), entries=k)
+                continue
+            post = s.world["box"]["bl"].v
+            q += 1
+            if ex.feasible(s, z3.Not(denotes_suffix(post, s0 + n, end))):
+                bad("c02.bytes.advance_loses_or_repeats_bytes",
+                    "after BufList::advance(n) the list does not hold exactly the bytes from position n on (a byte is lost or kept twice, or an empty entry stays at the front)",
+                    s, z3.Not(denotes_suffix(post, s0 + n, end)), entries=k)
+                continue
+            left = len(post.fields[(None, 0)].v.attrs["items"])
+            if k and left == k and ex.feasible(s, n != 0):
+                wit["advance_stops_inside_an_entry"] = True
+            if k >= 2 and 0 < left < k:
+                wit["advance_crosses_entries"] = True
+            if k and left == 0:
+                wit["advance_consumes_everything"] = True
+        # ---------------- remaining / chunk
+        st = State()
+        bl, lens, s0, end = sym_list(ex, st, k, "l")
+        st.world["box"] = {"bl": Cell(bl)}
+        for s, r in run_all(ex, st, P["rem"], [Ref(st.world["box"]["bl"])]):
+            paths += 1
+            q += 1
+            if is_panic(r) or ex.feasible(s, r != end - s0):
+                bad("c02.bytes.remaining_wrong", "BufList::remaining is not the number of buffered bytes", s, z3.BoolVal(True), entries=k)
+        st = State()
+        bl, lens, s0, end = sym_list(ex, st, k, "l")
+        st.world["box"] = {"bl": Cell(bl)}
+        for s, r in run_all(ex, st, P["chunk"], [Ref(st.world["box"]["bl"])]):
+            paths += 1
+            sl = C.deref(r)
+            q += 1
+            want = z3.And(sl.attrs["len"] == (lens[0] if k else bv(0)), sl.attrs["from"] == s0) if k else sl.attrs["len"] == 0
+            if ex.feasible(s, z3.Not(want)):
+                bad("c02.bytes.chunk_wrong", "BufList::chunk is not the bytes of the first entry", s, z3.Not(want), entries=k)
+        # ---------------- take_chunk(limit), limit >= 1: ONE step from an arbitrary valid list (induction over the calls)
+        st = State()
+        start = z3.BitVec("t_first_pos", 64)
+        st.pc.append(z3.Extract(63, LEN_BITS, start) == 0)
+        bl, lens, s0, end = sym_list(ex, st, k, "t", start)
+        lim = z3.BitVec("limit", 64)
+        st.pc.append(lim != 0)
+        st.world["box"] = {"bl": Cell(bl)}
+        for s, r in run_all(ex, st, P["take"], [Ref(st.world["box"]["bl"]), lim]):
+            paths += 1
+            if is_panic(r):
+                bad("c03.bytes.take_chunk_panics", "BufList::take_chunk panics", s, z3.BoolVal(True), entries=k)
+                continue
+            post = s.world["box"]["bl"].v
+            is_some = z3.is_bv_value(r.discr) and r.discr.as_long() == 1
+            if k == 0:
+                if is_some:
+                    bad("c03.bytes.take_chunk_size", "take_chunk on an empty list returns a chunk", s, z3.BoolVal(True), entries=k)
+                continue
+            if not is_some:
+                bad("c03.bytes.payload_bytes_lost_or_repeated", "take_chunk returns nothing although bytes are buffered", s, z3.BoolVal(True), entries=k)
+                continue
+            cs, cl = win(E.get_field(r, ("Some", 0)))
+            m_ = z3.If(z3.ULE(lim, lens[0]), lim, lens[0])
+            good = z3.And(cs == s0, cl == m_, denotes_suffix(post, s0 + m_, end))
+            q += 1
+            if ex.feasible(s, z3.Not(good)):
+                bad("c03.bytes.payload_bytes_lost_or_repeated",
+                    "take_chunk(limit) does not return exactly the first min(limit, first entry) bytes and keep exactly the rest (a payload byte would be lost, repeated or "
+                    "handed out of order)", s, z3.Not(good), entries=k)
+                continue
+            if len(post.fields[(None, 0)].v.attrs["items"]) == k:
+                wit["take_chunk_splits_an_entry"] = True
+            else:
+                wit["take_chunk_takes_a_whole_entry"] = True
+        # ---------------- cursor: ONE advance(c) from an arbitrary valid cursor position (induction over the reads)
+        for idx in range(0, k + 1):
+            st = State()
+            bl, lens, s0, end = sym_list(ex, st, k, "c")
+            pf = z3.BitVec("pos_front", 64)
+            if idx < k:
+                st.pc.append(z3.ULT(pf, lens[idx]))
+            else:
+                st.pc.append(pf == 0)
+            before = bv(0)
+            for j in range(idx):
+                before = before + lens[j]
+            cur = Obj("buf::Cursor<'_, bytes::Bytes>")
+            blc = Cell(bl)
+            fn = ex.find_fn(r"^buf::<impl[^>]*>::cursor$")
+            text = "\n".join(s_ for b in fn.blocks.values() for s_ in b.stmts)
+            mo = re.search(r"Cursor[^{]*\{([^}]*)\}", text)
+            names = [p_.strip().split(":")[0].strip() for p_ in mo.group(1).split(",") if ":" in p_] if mo else []
+            if sorted(names) != ["buf", "index", "pos_front", "pos_total"]:
+                raise Inconclusive("cannot read Cursor's field order from BufList::cursor: " + repr(names))
+            vals = {"buf": Ref(blc), "pos_total": before + pf, "pos_front": pf, "index": bv(idx)}
+            for i_, nm in enumerate(names):
+                cur.fields[(None, i_)] = Cell(vals[nm])
+            c_amt = z3.BitVec("c_amount", 64)
+            st.pc.append(z3.And(z3.ULE(c_amt, (end - s0) - (before + pf)), z3.Extract(63, LEN_BITS + 3, c_amt) == 0))
+            st.world["box"] = {"bl": blc, "cur": Cell(cur)}
+            for s, r in run_all(ex, st, P["cadv"], [Ref(st.world["box"]["cur"]), c_amt]):
+                paths += 1
+                if is_panic(r):
+                    bad("c02.bytes.cursor_advance_panics", "Cursor::advance panics for an amount within what is left", s, z3.BoolVal(True), entries=k, cursor_in_entry=idx)
+                    continue
+                c2 = s.world["box"]["cur"].v
+                f = {nm: c2.fields[(None, i_)].v for i_, nm in enumerate(names)}
+                new_total = before + pf + c_amt
+                i2 = ival(f["index"])
+                b2 = bv(0)
+                for j in range(min(i2, k)):
+                    b2 = b2 + lens[j]
+                inv = z3.And(f["pos_total"] == new_total, f["pos_total"] == b2 + f["pos_front"],
+                             z3.ULT(f["pos_front"], lens[i2]) if i2 < k else f["pos_front"] == 0, z3.BoolVal(i2 <= k))
+                q += 1
+                if ex.feasible(s, z3.Not(inv)):
+                    bad("c02.bytes.cursor_position_wrong",
+                        "after Cursor::advance(c) the cursor is not at byte position + c (or points outside its entry): the next read would take a byte of the wrong place",
+                        s, z3.Not(inv), entries=k, cursor_in_entry=idx)
+                    continue
+                if i2 == idx and ex.feasible(s, c_amt != 0):
+                    wit["cursor_stops_inside_an_entry"] = True
+                if idx < i2 < k:
+                    wit["cursor_crosses_entries"] = True
+                if k and i2 == k:
+                    wit["cursor_reaches_the_end"] = True
+                # chunk() at the new position
+                if i2 < k:
+                    s2 = s.clone()
+                    for s3, ch in run_all(ex, s2, P["cchunk"], [Ref(s2.world["box"]["cur"])]):
+                        paths += 1
+                        if is_panic(ch):
+                            bad("c02.bytes.cursor_reads_wrong_byte", "Cursor::chunk panics although bytes are left", s3, z3.BoolVal(True), entries=k)
+                            continue
+                        sl = C.deref(ch)
+                        good = z3.And(sl.attrs["from"] == new_total, sl.attrs["len"] != 0)
+                        q += 1
+                        if ex.feasible(s3, z3.Not(good)):
+                            bad("c02.bytes.cursor_reads_wrong_byte",
+                                "after advancing the cursor its chunk() does not start at the cursor's byte position (a payload byte would be read as a header byte or vice versa)",
+                                s3, z3.Not(good), entries=k, cursor_in_entry=idx)
+                # the list is untouched
+                q += 1
+                if ex.feasible(s, z3.Not(denotes_suffix(s.world["box"]["bl"].v, s0, end))):
+                    bad("c02.bytes.cursor_modifies_list", "reading through the cursor changes the list", s, z3.BoolVal(True), entries=k)
+    log(f"BufList / Cursor, symbolic: 0..{kmax} entries of ANY length below 2^{LEN_BITS}, symbolic amounts: {paths} paths, {q} property queries, {ex.queries} feasibility queries")
+    return ex, viols, paths, q, wit
+
+
+_check_enumerated = check
+
+
+def check(L, tier, log, samples):
+    t0 = time.time()
+    ex, viols, paths, q, wit = check_symbolic(L, tier, log, samples)
+    stats = {"states": paths, "transitions": ex.queries + q, "queries": ex.queries + q, "solver_s": round(ex.solver_s, 2), "witness": wit,
+             "functions": sorted(ex.functions_used), "wall_s": round(time.time() - t0, 1)}
+    # the enumeration over every concrete chunking of a few bytes (take_chunk repeated until empty, two-step cursor reads,
+    # take_first_chunk, push_bytes) is kept as a second, independent run of the same MIR under the concrete contracts
+    v2, s2 = _check_enumerated(L, tier, log, samples)
+    stats["states"] += s2["states"]
+    stats["queries"] += s2["queries"]
+    stats["transitions"] = stats["queries"]
+    stats["witness"].update({"enumerated." + k_: v_ for k_, v_ in s2["witness"].items()})
+    stats["functions"] = sorted(set(stats["functions"]) | set(s2["functions"]))
+    stats["wall_s"] = round(time.time() - t0, 1)
+    return viols + v2, stats
